@@ -261,3 +261,14 @@ def case_upper(p=0):
 def case_lower(p=0):
   rec('foo', p)
   return p
+
+
+# ---- C18: singleton constructor probe ------------------------------------------------
+CONSTRUCT_HOOK = [None]
+
+
+@gin.configurable(module='vw')
+def mkobj(tag='k'):
+  if CONSTRUCT_HOOK[0] is not None:
+    CONSTRUCT_HOOK[0](tag)
+  return object()
